@@ -46,7 +46,8 @@ type Engine struct {
 	iters           map[int]*iterState
 	stopOnViolation bool
 	mergeStats      int
-	tier            string
+	tier string
+	lastDefinite bool
 	usedModels      bool
 	uniq            map[string]int
 	ifShapes        map[*ssa.If]*ifShape
@@ -79,6 +80,7 @@ func (e *Engine) sat(s *State, c *Term) bool {
 	if err != nil {
 		e.errf("solver: %v", err)
 	}
+	e.lastDefinite = r == Sat
 	if r == Unknown {
 		e.unknowns++
 		return true
@@ -98,7 +100,7 @@ func (s *State) assume(e *Engine, c *Term, val bool) {
 
 // fetchModel reads the values of the path's variables after a Sat answer.
 func (e *Engine) fetchModel(s *State) *Model {
-	if e.noModel {
+	if e.noModel || !e.lastDefinite {
 		return nil
 	}
 	var vs []*Term
